@@ -48,6 +48,8 @@ type EntrySpec struct {
 type UnitSpec struct {
 	Pkg     string      `json:"pkg"`
 	Files   []string    `json:"files"`
+	// harness files overlaid into other packages: package dir -> files
+	ExtraFiles map[string][]string `json:"extra_files"`
 	Extra   []string    `json:"extra_patterns"`
 	Entries []EntrySpec `json:"entries"`
 }
@@ -148,6 +150,11 @@ func (r *replayer) build() error {
 	}
 	for _, f := range r.unit.Files {
 		repl[filepath.Join(pkgDir, "zz_verif_"+filepath.Base(f))] = filepath.Join(r.propDir, f)
+	}
+	for dir, fs := range r.unit.ExtraFiles {
+		for _, f := range fs {
+			repl[filepath.Join(repoDir, dir, "zz_verif_"+filepath.Base(f))] = filepath.Join(r.propDir, f)
+		}
 	}
 	ov, _ := json.Marshal(map[string]interface{}{"Replace": repl})
 	ovFile := filepath.Join(scratch, "overlay.json")
@@ -268,6 +275,11 @@ func cmdCheck(args []string) int {
 		propDir := filepath.Join(verifDir, "harness", strings.ToLower(prop))
 		for _, f := range u.Files {
 			ls.Overlay[filepath.Join(repoDir, u.Pkg, "zz_verif_"+filepath.Base(f))] = filepath.Join(propDir, f)
+		}
+		for dir, fs := range u.ExtraFiles {
+			for _, f := range fs {
+				ls.Overlay[filepath.Join(repoDir, dir, "zz_verif_"+filepath.Base(f))] = filepath.Join(propDir, f)
+			}
 		}
 		p, err := interp.Load(ls)
 		if err != nil {
